@@ -77,6 +77,7 @@ func execQt(line string) Result {
 	// the cancel property is checked only for qids started exactly once in the sequence (the engine hands
 	// out unique qids; re-used qids are exercised for model correspondence only)
 	startCount := map[uint64]int{}
+	forced := 0 // forced starts bypass canRunQuery; everything else must respect MAX_RUNNING_QUERIES
 	for _, op := range f[2:] {
 		if strings.HasPrefix(op, "s") && len(op) > 2 {
 			if q, e := strconv.ParseUint(op[1:len(op)-1], 10, 64); e == nil {
@@ -107,6 +108,9 @@ func execQt(line string) Result {
 			} else {
 				out = "ok"
 				started[qid] = true
+				if op[len(op)-1] == 'f' {
+					forced++
+				}
 			}
 		case strings.HasPrefix(op, "c"), strings.HasPrefix(op, "d"), strings.HasPrefix(op, "r"):
 			q, e := strconv.ParseUint(op[1:], 10, 64)
@@ -171,6 +175,10 @@ func execQt(line string) Result {
 		}
 		nrun := query.GetActiveQueryCount()
 		toks = append(toks, fmt.Sprintf("%s:%d:%d:%s", out, nrun, query.VerifWaitingLen(), info))
+		if nrun > m+forced {
+			res.Fails = append(res.Fails, PropFail{Sig: "query-lifecycle/admission-limit-exceeded",
+				Msg: fmt.Sprintf("after op %d (%s) the running table holds %d queries; MAX_RUNNING_QUERIES=%d, forced starts so far %d", len(toks), op, nrun, m, forced)})
+		}
 		if query.VerifWaitingLen() > query.MAX_WAITING_QUERIES {
 			res.Fails = append(res.Fails, PropFail{Sig: "query-waiting-limit-exceeded", Msg: "waiting queue above MAX_WAITING_QUERIES"})
 		}
